@@ -293,3 +293,8 @@ proof fn lemma_child(s: Seq<Ev<'_>>, c0: int)
     lemma_fp_skip(s, c0, 0);
 }
 
+
+/// the use site of the node that starts with event `e`: the alias token while an alias is being replayed, else the node
+spec fn spec_use_site(use_site_override: Option<Location>, e: Ev<'_>) -> Location {
+    match use_site_override { Some(l) => l, None => e.spec_location() }
+}
